@@ -189,6 +189,8 @@ class World:
             return "http://[::1" + path
         if form == "nohost":
             return "http://:80" + path
+        if form == "colon-login":
+            return f"http://user%3Aname:pw@{tgt[1]}" + path  # a login that cannot be put into a Basic credential
         if form == "empty":
             return ""
         if form == "missing":
@@ -216,7 +218,7 @@ def effective_target(cur: tuple, hop: dict) -> tuple | None:
 TERMINAL_FORMS = {"ftp": "NonHttpUrlRedirectClientError", "mailto": "NonHttpUrlRedirectClientError", "ws": "NonHttpUrlRedirectClientError",
                   "wss": "NonHttpUrlRedirectClientError", "tcp": "NonHttpUrlRedirectClientError", "unix": "NonHttpUrlRedirectClientError",
                   "HTTPX": "NonHttpUrlRedirectClientError", "invalid": "InvalidUrlRedirectClientError",
-                  "nohost": "InvalidUrlRedirectClientError", "empty": None, "missing": None}
+                  "nohost": "InvalidUrlRedirectClientError", "colon-login": "InvalidUrlRedirectClientError", "empty": None, "missing": None}
 
 
 def run_case(case: dict):
